@@ -80,10 +80,10 @@ Lemma read_at_post o img off n :
 Proof.
   unfold read_at. destruct (n =? 0) eqn:E0.
   - apply N.eqb_eq in E0. subst. simpl. split; [reflexivity|congruence].
-  - destruct (two63 <=? off) eqn:E1; [exact I|].
+  - destruct (two63 <=? off + n) eqn:E1; [exact I|].
     destruct (off + n <=? lenN img) eqn:E2; [|exact I].
     apply N.leb_le in E2. apply N.leb_gt in E1. simpl. split; [apply lenN_firstn_skipn; exact E2|].
-    intros _. split; assumption.
+    intros _. split; [lia|assumption].
 Qed.
 
 Lemma malloc_chk_post o n : post o (malloc_chk n) (fun _ => n <= alloc_limit).
